@@ -287,6 +287,12 @@ def run(prog, tier, extra=None):
             res.add(Finding(R4, "C11.decoders|%s" % path,
                             "%s can panic on input bytes (C10) and is reachable from the peer-driven handlers" % path.replace(CORE, ""),
                             f.loc, {"call_path": steps[-8:]}))
+    # a handler that waits for a lock in an inverted order never returns: lock-order findings inside handler-reachable bodies
+    from ._include import include
+    live_plain = {q.replace("::{closure#0}", "") for q in live}
+    include(res, prog, tier, extra, "c20", ["C20.inversion", "C20.reacquire"],
+            "a handler blocked in a lock-order cycle does not return normally",
+            keep=lambda f: any(part.replace("::{closure#0}", "") in live_plain for part in f.key.split("|")[1:2]))
     res.extra["fallible_functions"] = len(fallible)
     res.explanation = (
         "Decides absence, on the call graph reachable from the three peer-driven event handlers, of explicit crash shapes whose trigger is peer-chosen by construction: "
